@@ -230,6 +230,20 @@ impl Scenario for C17 {
             spec.pre = rng.below(4) as u32;
             return spec;
         }
+        if rng.chance(1, 625) {
+            // marathon: a rare event in the key stream itself (two equal adjacent words: 2^-32 per word) must
+            // not open the text either, and cannot be crafted for a non-invertible cipher: twins with
+            // different seeds simply produce 2^27 words each (2^29 in the thorough tier)
+            spec.variant = "gen_marathon".into();
+            // (HC-128 only: states of the serialisable types can be manufactured, see the zero-word / equal-word states)
+            let kind = Kind::Hc128;
+            spec.kind = Some(kind);
+            spec.seed = Some(gen_seed(rng, kind));
+            spec.seed2 = Some(gen_seed(rng, kind));
+            // aux[0]: chunks of 4 MiB
+            spec.aux = vec![if _tier == Tier::Quick { 128 } else { 512 }];
+            return spec;
+        }
         spec.variant = "gen".into();
         let kind = *rng.pick(&HIDING);
         spec.kind = Some(kind);
@@ -284,7 +298,13 @@ impl Scenario for C17 {
     }
     fn execute(&self, spec: &Spec, st: &mut Stats) -> RunEnd {
         st.evals += 1;
-        let r = if spec.variant == "core" { self.run_core(spec, st) } else { self.run_gen(spec, st) };
+        let r = if spec.variant == "core" {
+            self.run_core(spec, st)
+        } else if spec.variant == "gen_marathon" {
+            self.run_marathon(spec, st)
+        } else {
+            self.run_gen(spec, st)
+        };
         match r {
             Ok(()) => RunEnd::Ok,
             Err(E::End(e)) => e,
@@ -400,6 +420,33 @@ impl C17 {
                 Call::Fill(n) => (n as u64 + wb - 1) / wb,
             };
         }
+        Ok(())
+    }
+
+    fn run_marathon(&self, spec: &Spec, st: &mut Stats) -> Result<(), E> {
+        let kind = spec.kind.expect("kind");
+        let mut a = build(spec, false).map_err(E::End)?;
+        let mut b = build(spec, true).map_err(E::End)?;
+        let chunks = spec.aux.first().copied().unwrap_or(1);
+        let mut buf = vec![0u8; 4 << 20];
+        let none = BTreeSet::new();
+        for c in 0..chunks {
+            for g in [&mut a, &mut b] {
+                let gm = g.as_mut();
+                let bm = &mut buf;
+                sut(guard(|| gm.fill_bytes(bm)), "fill_bytes")?;
+            }
+            // texts every 16 chunks and at the end
+            if c % 16 == 15 || c + 1 == chunks {
+                let da = sut(guard(|| a.debug()), "debug")?;
+                let db = sut(guard(|| b.debug()), "debug")?;
+                st.count("probe:marathon_texts_compared");
+                check_texts(kind.name(), &da, &db, &none, &none, &format!("after {} MiB of output", 4 * (c + 1)))?;
+            }
+        }
+        st.add("probe:marathon_mebibytes", 8 * chunks);
+        st.log.u64(buf[0] as u64);
+        st.sig(&[kind.id(), 4242]);
         Ok(())
     }
 
